@@ -124,7 +124,11 @@ func (db *PreparedStmtDB) prepare(ctx context.Context, conn ConnPool, isTransact
 	if err != nil {
 		cacheStmt.prepareErr = err
 		db.Mux.Lock()
-		delete(db.Stmts, query)
+		// only remove the entry this call published: after a Reset, or after a Tx-only entry
+		// was replaced, the slot may hold somebody else's entry
+		if cur, ok := db.Stmts[query]; ok && cur == &cacheStmt {
+			delete(db.Stmts, query)
+		}
 		db.Mux.Unlock()
 		return Stmt{}, err
 	}
@@ -134,6 +138,14 @@ func (db *PreparedStmtDB) prepare(ctx context.Context, conn ConnPool, isTransact
 	db.Mux.Unlock()
 
 	return cacheStmt, nil
+}
+
+// evict removes the cached entry of query if it still carries the statement the caller used;
+// a newer entry (cached after a Reset or an eviction) is left alone. Must be called with Mux held.
+func (db *PreparedStmtDB) evict(query string, used *sql.Stmt) {
+	if cur, ok := db.Stmts[query]; ok && cur.Stmt == used {
+		delete(db.Stmts, query)
+	}
 }
 
 func (db *PreparedStmtDB) BeginTx(ctx context.Context, opt *sql.TxOptions) (ConnPool, error) {
@@ -165,7 +177,7 @@ func (db *PreparedStmtDB) ExecContext(ctx context.Context, query string, args ..
 			db.Mux.Lock()
 			defer db.Mux.Unlock()
 			go stmt.Close()
-			delete(db.Stmts, query)
+			db.evict(query, stmt.Stmt)
 		}
 	}
 	return result, err
@@ -180,7 +192,7 @@ func (db *PreparedStmtDB) QueryContext(ctx context.Context, query string, args .
 			defer db.Mux.Unlock()
 
 			go stmt.Close()
-			delete(db.Stmts, query)
+			db.evict(query, stmt.Stmt)
 		}
 	}
 	return rows, err
@@ -234,7 +246,7 @@ func (tx *PreparedStmtTX) ExecContext(ctx context.Context, query string, args ..
 			defer tx.PreparedStmtDB.Mux.Unlock()
 
 			go stmt.Close()
-			delete(tx.PreparedStmtDB.Stmts, query)
+			tx.PreparedStmtDB.evict(query, stmt.Stmt)
 		}
 	}
 	return result, err
@@ -249,7 +261,7 @@ func (tx *PreparedStmtTX) QueryContext(ctx context.Context, query string, args .
 			defer tx.PreparedStmtDB.Mux.Unlock()
 
 			go stmt.Close()
-			delete(tx.PreparedStmtDB.Stmts, query)
+			tx.PreparedStmtDB.evict(query, stmt.Stmt)
 		}
 	}
 	return rows, err
